@@ -29,7 +29,7 @@ pub fn insert<'a, T: ValueCollection>(
                 let capacity = if index >= 0 {
                     (index as usize) + 1
                 } else {
-                    (-index) as usize
+                    index.unsigned_abs()
                 };
                 let mut array = Vec::with_capacity(capacity);
                 let prev_value = insert(&mut array, index, path_iter, insert_value);
